@@ -290,7 +290,7 @@ fn check_tiny(prog: &Program, seed: u64, thorough: bool, rep: &mut Report) {
 pub fn run(p: &Params, rep: &mut Report) {
     let stride = 1;
     for_tiny_programs(p, rep, stride, p.size(200, 4000), |prog, seed, rep| check_tiny(prog, seed, p.thorough, rep));
-    let n = p.size(12, 120);
+    let n = p.size(40, 400);
     for_programs(p, rep, 7, n, &STD_WEIGHTS, (20, 45), |prog, seed, rep| check_program(prog, seed, p.thorough, rep));
 }
 
